@@ -11,6 +11,7 @@ import (
 	"os"
 	"runtime"
 	"sort"
+	"strconv"
 	"strings"
 	"sync"
 	"sync/atomic"
@@ -233,7 +234,13 @@ func writeAnswer(c diam.Conn, a *diam.Message, act Action) error {
 func startPeers(rfPort, abmfPort int, pemF, keyF string) error {
 	_ = dict.Default.Load(bytes.NewReader([]byte(cdict.RateDictionary)))
 	_ = dict.Default.Load(bytes.NewReader([]byte(cdict.AbmfDictionary)))
-	settings := &sm.Settings{OriginHost: "server", OriginRealm: "go-diameter", VendorID: 13, ProductName: "go-diameter", FirmwareRevision: 1}
+	// in every other process the peers announce the Origin-Host the CHF itself announces ("client"): two nodes of one
+	// realm may be configured with the same name by mistake, and nothing in the exchange depends on the name
+	origin := "server"
+	if sh, _ := strconv.Atoi(os.Getenv("VERIF_SHARD")); sh%2 == 1 {
+		origin = "client"
+	}
+	settings := &sm.Settings{OriginHost: datatype.DiameterIdentity(origin), OriginRealm: "go-diameter", VendorID: 13, ProductName: "go-diameter", FirmwareRevision: 1}
 	rmux := sm.New(settings)
 	rmux.HandleFunc("SUR", func(c diam.Conn, m *diam.Message) {
 		var sur cdt.ServiceUsageRequest
